@@ -739,6 +739,7 @@ func (fr *Frame) sliceInstr(x *ssa.Slice, reach T, st *State) {
 		ex.assume(tTrue, implies(and(app("Bool", "<=", intLit(0), lo), app("Bool", "<=", lo, hi), app("Bool", "<=", hi, ln)),
 			eq(app("Int", "len$Str", r), app("Int", "-", hi, lo))))
 		ex.assume(tTrue, implies(and(eq(lo, intLit(0)), eq(hi, ln)), eq(r, s)))
+		ex.emit(fmt.Sprintf("(assert (forall ((k Int)) (! (=> (and (<= 0 k) (< k (- %s %s))) (= (str$at %s k) (str$at %s (+ %s k)))) :pattern ((str$at %s k)))))", hi.s, lo.s, r.s, s.s, lo.s, r.s))
 		ex.assume(tTrue, eq(eq(app("Int", "len$Str", r), intLit(0)), eq(r, T{"str$empty", "Str"})))
 		fr.vals[x] = r
 	case *types.Pointer:
